@@ -35,7 +35,7 @@ def runForms : P Verdict := do
 
 def runLines : P Verdict := do
   let kinds ← next
-  let _sr ← nat; let _fp ← nat
+  let sr ← nat; let fp ← nat
   let nl ← nat
   let mut lines : List (List Nat) := []
   let mut table : List (List Nat × Bool × Float × Bool) := []
@@ -52,7 +52,14 @@ def runLines : P Verdict := do
     if splitn3 l != toks then splitOk := false
     lines := lines ++ [l]
   let res ← next
-  let res ← (if res == "ok" then do let _ ← nat; pure "ok" else pure res)
+  let mut implTimes : List (Float × Float) := []
+  let res ← (if res == "ok" then do
+      let _ ← nat
+      let nt ← nat
+      let ts ← many nt (do let a ← flt; let b ← flt; pure (a, b))
+      pure ("ok", ts) else pure (res, []))
+  implTimes := res.2
+  let res := res.1
   let genRes ← next
   let parseF (t : List Nat) : Option Float := match table.find? (·.1 == t) with
     | some (_, true, v, _) => some v
@@ -60,14 +67,28 @@ def runLines : P Verdict := do
   let parseL (t : List Nat) : Option (List Nat) := match table.find? (·.1 == t) with
     | some (_, _, _, true) => some t
     | _ => none
-  let m := match loadLines parseF parseL 1.0 lines with
+  let rate : Float := timeRate sr fp
+  let loaded := loadLines parseF parseL rate lines
+  let m := match loaded with
     | .ok _ => "ok"
     | .error .jlabelParse => "err:jlabel"
     | .error .missingLabel => "err:missing"
     | .error .floatParse => "err:float"
     | .error .lengthMismatch => "err:length"
+  -- the time stamps each label carries: the model's raw times after `Labels::new`'s gap filling
+  let timesDiff : Option String := match loaded with
+    | .ok xs =>
+      if res != "ok" then none else
+      let want := fillTimes (xs.map (·.2))
+      if want.length != implTimes.length then some s!"{implTimes.length} time pairs, expected {want.length}"
+      else
+        let bad := (List.range want.length).find? fun i =>
+          let (a, b) := want.getD i (0.0, 0.0); let (c, d) := implTimes.getD i (0.0, 0.0)
+          !(closeF 1e-12 1e-300 a c && closeF 1e-12 1e-300 b d)
+        bad.map fun i => s!"label {i} carries times {implTimes.getD i (0.0, 0.0)}, its line says {want.getD i (0.0, 0.0)} (frames)"
+    | _ => none
   let corr := firstSome [check splitOk "splitn(3,' ') model differs from the implementation's split",
-                         check (m == res) s!"load_from_strings model={m} impl={res}"]
+                         check (m == res) s!"load_from_strings model={m} impl={res}", timesDiff]
   -- the statement: every non-blank line must be a well-formed label line (LABEL, or START END LABEL with two
   -- numbers); anything else must be reported as an error
   let wellFormed (l : List Nat) : Bool :=
@@ -78,6 +99,7 @@ def runLines : P Verdict := do
      | _ => false)
   let allWell := lines.all wellFormed
   let orc := firstSome [
+    timesDiff.map (fun d => s!"time stamps attached to the wrong label or in the wrong unit: {d}"),
     check (allWell || res != "ok") "a line that is not a well-formed label line was accepted instead of being reported as an error",
     check (!allWell || res == "ok") s!"well-formed label lines were rejected: {res}",
     check (!res.startsWith "panic") s!"label text caused a panic: {res}",
